@@ -372,7 +372,7 @@ def run(ctx: core.Ctx):
     engines = pick_engines(ctx)
     progs, n_exh = c01.make_programs(ctx)
     corpus, exh, rand = progs[:5], progs[5:5 + n_exh], progs[5 + n_exh:]
-    n_e, n_r = (22, 34) if ctx.tier == "quick" else (100, 200)
+    n_e, n_r = (16, 24) if ctx.tier == "quick" else (100, 200)
     chosen = corpus + rnd.sample(exh, min(n_e, len(exh))) + rnd.sample(rand, min(n_r, len(rand)))
     programs, tables_for, sql_dialects, plans = [], {}, {}, {}
     tnames = list(c01.TABLES)
